@@ -1,4 +1,4 @@
-import SnaxVerif.Lemmas.Dma
+import SnaxVerif.Lemmas.DmaResolve
 /-!
 # C05 — DMA lowering of a copy moves every element to its layout position
 
@@ -27,24 +27,25 @@ def TileDividesShape (rs : Rt) (l : Lowered) : Prop := rs.shape = l.nested.map p
 /-- `LcbStepsStatic`: no member of the reported common block has a dynamic step (`None == None` matching — D40). -/
 def LcbStepsStatic (l : Lowered) : Prop := ∀ s ∈ l.lcb, s.step ≠ none
 
-/-- `ByValueDistinct`: two positions of the source layout carry the same Stride value with a static step only if
-both have run-time bound 1 (`stride not in lcb` compares by value — D41). Implied by "the source layout does not self-overlap and has no
-two equal dynamic strides". -/
+/-- `ByValueDistinct` (only needed for the code BEFORE fix F21): two positions of the source layout carry the same
+Stride value with a static step only if both have run-time bound 1 (`stride not in lcb` compared by value — D41). -/
 def ByValueDistinctC (l : Lowered) : Prop := ByValueDistinct l.nested.flatten
 
 /-- `ResolutionConsistent`: the run-time values of `get_bound_ops`/`get_step_ops` agree with the static strides where
-those are static. A property of the model's `resolve`, not of the input; checked on every case by the harness
-(not proved: see obligations notes). -/
-def ResolutionConsistent (el : Nat) (l : Lowered) : Prop := ∀ e ∈ l.nested.flatten, e.consistentB el = true
+those are static. Formerly a hypothesis; now PROVED of the model's `resolve` for every input
+(`resolution_consistent`). -/
+def ResolutionConsistent (el : Nat) (l : Lowered) : Prop := ∀ e ∈ l.nested.flatten, e.Consistent el
 
 /-! ## the property at full strength -/
 
-/-- Full statement for the layout-aware path (`TransformDMA`), over all memref types, layouts and run-time
-descriptors on which the pass emits code. FALSE of the code as it is: see the `_fails` theorems. -/
+/-- Full statement for the layout-aware path (`TransformDMA`, with fix F21), over all memref types, layouts and
+run-time descriptors on which the pass emits code; the pointers are the descriptor's aligned pointers plus element size
+times the layout's offset. FALSE of the code as it is (D32, D40): see the `_fails` theorems. -/
 def C05_statement : Prop :=
-  ∀ (src dst : MemTy) (rs rd : Rt) (l : Lowered), transformDma src dst rs rd = .ok l →
-    EqualTileBounds l → ResolutionConsistent src.el l →
-    l.prog.moves ~ expectedMoves src.el l.prog.sbase l.prog.dbase rs.shape l.nested
+  ∀ (src dst : MemTy) (rs rd : Rt) (l : Lowered), transformDma false src dst rs rd = .ok l →
+    EqualTileBounds l →
+    l.prog.moves ~ expectedMoves src.el (rs.base + src.el * layoutOffset src rs) (rd.base + src.el * layoutOffset dst rd)
+      rs.shape l.nested
 
 /-! ## theorems -/
 
@@ -69,18 +70,50 @@ theorem lcb_one_burst (el : Nat) (flat mem : List Entry) (h : lcbMembers flat = 
 permutation of a loop nest visits the same offsets. -/
 theorem loop_order_irrelevant {l1 l2 : List (Nat × Nat × Nat)} (h : l1 ~ l2) : offs l1 ~ offs l2 := offs_perm h
 
-/-- C05 for `TransformDMA`, all ranks / depths / shapes / widths / offsets / static and dynamic entries:
+/-- `ResolutionConsistent` holds for EVERY result of `TransformDMA` (every rank, depth, static or dynamic entry,
+descriptor): wherever a step or bound is static in the (reconstructed) layout, the value the emitted `get_bound_ops` /
+`get_step_ops` ops compute at run time is that bound, resp. that step × element size. (Was an assumed clause.) -/
+theorem resolution_consistent (bv : Bool) (src dst : MemTy) (rs rd : Rt) (l : Lowered)
+    (h : transformDma bv src dst rs rd = .ok l) : ResolutionConsistent src.el l :=
+  transformDma_consistent h
+
+/-- byte/element scaling of the offsets: the pointers handed to the DMA calls start at the descriptor's aligned
+pointer plus element size × the layout's offset (static, or the descriptor's for `offset: ?`), on both sides. -/
+theorem C05_bases (bv : Bool) (src dst : MemTy) (rs rd : Rt) (l : Lowered) (h : transformDma bv src dst rs rd = .ok l) :
+    l.prog.sbase = rs.base + src.el * layoutOffset src rs ∧ l.prog.dbase = rd.base + src.el * layoutOffset dst rd :=
+  transformDma_bases h
+
+/-- C05 for `TransformDMA` WITH fix F21, all ranks / depths / shapes / widths / offsets / static and dynamic entries:
 the emitted transfers are a permutation of the layout-defined element moves. PARTIAL: clauses `TileDividesShape`
-(D32), `LcbStepsStatic` (D40), `ByValueDistinct` (D41) exclude the three defects of the unchanged tree. -/
+(D32) and `LcbStepsStatic` (D40) exclude the two open defects; `ResolutionConsistent` and `ByValueDistinct` are gone
+(proved, resp. removed by the fix). -/
 theorem C05_moves_partial (src dst : MemTy) (rs rd : Rt) (l : Lowered)
-    (h : transformDma src dst rs rd = .ok l)
-    (_hETB : EqualTileBounds l) (hRC : ResolutionConsistent src.el l)
-    (hTD : TileDividesShape rs l) (hLS : LcbStepsStatic l) (hBV : ByValueDistinctC l) :
+    (h : transformDma false src dst rs rd = .ok l)
+    (_hETB : EqualTileBounds l) (hTD : TileDividesShape rs l) (hLS : LcbStepsStatic l) :
     l.prog.moves ~ expectedMoves src.el l.prog.sbase l.prog.dbase rs.shape l.nested := by
   have h' := transformDma_inv h
   unfold TileDividesShape at hTD
   rw [hTD] at h' ⊢
-  exact lowerResolved_moves src.el _ _ l.nested l.lcb l.prog h' hLS hBV (fun e he => consistentB_sound (hRC e he))
+  exact lowerResolved_moves src.el _ _ l.nested l.lcb l.prog h' hLS (transformDma_consistent h)
+
+/-- the same with the pointers spelled out from the descriptors and the layouts' offsets -/
+theorem C05_moves_abs_partial (src dst : MemTy) (rs rd : Rt) (l : Lowered)
+    (h : transformDma false src dst rs rd = .ok l)
+    (hETB : EqualTileBounds l) (hTD : TileDividesShape rs l) (hLS : LcbStepsStatic l) :
+    l.prog.moves ~ expectedMoves src.el (rs.base + src.el * layoutOffset src rs) (rd.base + src.el * layoutOffset dst rd)
+      rs.shape l.nested := by
+  have := C05_moves_partial src dst rs rd l h hETB hTD hLS
+  rwa [(transformDma_bases h).1, (transformDma_bases h).2] at this
+
+/-- C05 for `TransformDMA` BEFORE fix F21 (by-value membership): additionally needs `ByValueDistinct` (D41). -/
+theorem C05_moves_byValue_partial (src dst : MemTy) (rs rd : Rt) (l : Lowered)
+    (h : transformDma true src dst rs rd = .ok l)
+    (_hETB : EqualTileBounds l) (hTD : TileDividesShape rs l) (hLS : LcbStepsStatic l) (hBV : ByValueDistinctC l) :
+    l.prog.moves ~ expectedMoves src.el l.prog.sbase l.prog.dbase rs.shape l.nested := by
+  have h' := transformDma_inv h
+  unfold TileDividesShape at hTD
+  rw [hTD] at h' ⊢
+  exact lowerResolved_moves_byValue src.el _ _ l.nested l.lcb l.prog h' hLS hBV (transformDma_consistent h)
 
 /-- C05 for `MatchSimpleCopy` (both layouts absent, any rank, static or dynamic shape, any width): the single 1-D
 transfer performs exactly the row-major element moves, in order. FULL. -/
@@ -97,8 +130,15 @@ theorem simpleCopy_moves (src dst : MemTy) (rs rd : Rt) (p : DmaProg) (h : simpl
       rw [moves_oneD]; rfl
   · simp at h
 
-/-- Under `NoSelfOverlap`-style distinctness the by-value test `stride not in lcb` only ever drops loops of trip
-count 1 besides the block's own members (DESIGN: `byValue_drop_harmless`). -/
+/-- With fix F21 (membership by position) only the block's own members and loops of trip count 1 are dropped, for
+EVERY layout pair (no distinctness assumption). -/
+theorem byKey_drop_harmless (el : Nat) (flat : List Entry) (mr : List Entry × List Entry) (hs : lcbSplit flat = .ok mr)
+    (hk : ∀ e ∈ flat, e.Consistent el) :
+    ∃ U R, flat ~ U ++ (R ++ mr.1.reverse) ∧ (∀ u ∈ U, u.bound = 1) ∧ remainingByKey (lcbOfMembers mr.1) mr.2 ~ R :=
+  byKey_split el hs hk
+
+/-- Before the fix: under `NoSelfOverlap`-style distinctness the by-value test `stride not in lcb` only ever drops
+loops of trip count 1 besides the block's own members (DESIGN: `byValue_drop_harmless`). -/
 theorem byValue_drop_harmless (el : Nat) (flat mem : List Entry) (hm : lcbMembers flat = .ok mem)
     (hk : ∀ e ∈ flat, e.consistentB el = true) (hs : ∀ m ∈ mem, m.ss.step ≠ none) (hbv : ByValueDistinct flat) :
     ∃ U R, flat ~ U ++ (R ++ mem.reverse) ∧ (∀ u ∈ U, u.bound = 1) ∧ remaining (lcbOfMembers mem) flat ~ R :=
@@ -107,8 +147,8 @@ theorem byValue_drop_harmless (el : Nat) (flat mem : List Entry) (hm : lcbMember
 /-! ## the dropped clauses are necessary: counterexamples in the model (replayed on the real code by the harness) -/
 
 /-- Bool evaluation of "the clauses other than the named ones hold and the conclusion holds" on a concrete input. -/
-def check (src dst : MemTy) (rs rd : Rt) (needTD needLS needBV : Bool) : Option Bool :=
-  match transformDma src dst rs rd with
+def check (bv : Bool) (src dst : MemTy) (rs rd : Rt) (needTD needLS needBV : Bool) : Option Bool :=
+  match transformDma bv src dst rs rd with
   | .ok l =>
     if decide (l.tS.tileBounds = l.tD.tileBounds) && l.nested.flatten.all (·.consistentB src.el)
         && (!needTD || decide (rs.shape = l.nested.map prodB))
@@ -123,33 +163,41 @@ def i32 (shape : List (Option Nat)) (lay : Layout) : MemTy := ⟨shape, 4, true,
 /-- D32: `memref<?xi32, #tsl.tsl<[?, 2] -> (4, 1)>>` to `strided<[2]>` with run-time extent 5: the bound `5 / 2`
 floors to 2 and element 4 is never copied (all other clauses hold). -/
 theorem C05_tileDividesShape_fails :
-    check (i32 [none] (.tsl ⟨[[⟨some 4, none⟩, ⟨some 1, some 2⟩]], some 0⟩)) (i32 [none] (.strided [some 2] (some 0)))
+    check false (i32 [none] (.tsl ⟨[[⟨some 4, none⟩, ⟨some 1, some 2⟩]], some 0⟩)) (i32 [none] (.strided [some 2] (some 0)))
       ⟨1000, [5], [], 0⟩ ⟨5000, [5], [2], 0⟩ false true true = some false := by decide +kernel
 
 /-- D40: `memref<?x?xi32, strided<[?, 1]>>` on both sides (an upstream filecheck input) with run-time row strides 3
 and 2 for a 2x2 copy: the dynamic stride `?` matches `None == None`, joins the block and ONE 1-D transfer of 16 bytes
 is emitted. -/
 theorem C05_lcbStepsStatic_fails :
-    check (i32 [none, none] (.strided [none, some 1] (some 0))) (i32 [none, none] (.strided [none, some 1] (some 0)))
+    check false (i32 [none, none] (.strided [none, some 1] (some 0)))
+      (i32 [none, none] (.strided [none, some 1] (some 0)))
       ⟨1000, [2, 2], [3, 1], 0⟩ ⟨5000, [2, 2], [2, 1], 0⟩ true false true = some false := by decide +kernel
 
-/-- D41: `memref<2x2xi32, strided<[1, 1]>>` (equal steps in different dimensions) to `strided<[1, 2]>`: the second
-source stride equals the block member `2 -> 1` by value, its loop is dropped and a 1-D transfer is emitted. -/
+/-- D41 (code BEFORE fix F21): `memref<2x2xi32, strided<[1, 1]>>` (equal steps in different dimensions) to
+`strided<[1, 2]>`: the second source stride equals the block member `2 -> 1` by value, its loop is dropped and a 1-D
+transfer is emitted. -/
 theorem C05_byValueDistinct_fails :
-    check (i32 [some 2, some 2] (.strided [some 1, some 1] (some 0)))
+    check true (i32 [some 2, some 2] (.strided [some 1, some 1] (some 0)))
       (i32 [some 2, some 2] (.strided [some 1, some 2] (some 0)))
       ⟨1000, [2, 2], [1, 1], 0⟩ ⟨5000, [2, 2], [1, 2], 0⟩ true true false = some false := by decide +kernel
 
-/-- therefore the full statement is false of the code as it is -/
+/-- … and WITH fix F21 the same input is lowered correctly although it violates `ByValueDistinct`. -/
+theorem C05_byValueDistinct_fixed :
+    check false (i32 [some 2, some 2] (.strided [some 1, some 1] (some 0)))
+      (i32 [some 2, some 2] (.strided [some 1, some 2] (some 0)))
+      ⟨1000, [2, 2], [1, 1], 0⟩ ⟨5000, [2, 2], [1, 2], 0⟩ true true false = some true := by decide +kernel
+
+/-- therefore the full statement is false of the code as it is (D40 witness) -/
 theorem C05_statement_fails : ¬ C05_statement := by
   intro hst
-  have hw : transformDma (i32 [some 2, some 2] (.strided [some 1, some 1] (some 0)))
-      (i32 [some 2, some 2] (.strided [some 1, some 2] (some 0)))
-      ⟨1000, [2, 2], [1, 1], 0⟩ ⟨5000, [2, 2], [1, 2], 0⟩ =
-      .ok ⟨⟨[[⟨some 1, some 2⟩], [⟨some 1, some 2⟩]], some 0⟩, ⟨[[⟨some 1, some 2⟩], [⟨some 2, some 2⟩]], some 0⟩,
-        [[⟨⟨some 1, some 2⟩, ⟨some 1, some 2⟩, 2, 4, 4⟩], [⟨⟨some 1, some 2⟩, ⟨some 2, some 2⟩, 2, 4, 8⟩]],
-        [⟨some 1, some 2⟩], ⟨1000, 5000, [], .oneD 16⟩⟩ := by decide +kernel
-  have := hst _ _ _ _ _ hw (by unfold EqualTileBounds; decide) (by unfold ResolutionConsistent; decide)
+  have hw : transformDma false (i32 [none, none] (.strided [none, some 1] (some 0)))
+      (i32 [none, none] (.strided [none, some 1] (some 0)))
+      ⟨1000, [2, 2], [3, 1], 0⟩ ⟨5000, [2, 2], [2, 1], 0⟩ =
+      .ok ⟨⟨[[⟨none, none⟩], [⟨some 1, none⟩]], some 0⟩, ⟨[[⟨none, none⟩], [⟨some 1, none⟩]], some 0⟩,
+        [[⟨⟨none, none⟩, ⟨none, none⟩, 2, 12, 8⟩], [⟨⟨some 1, none⟩, ⟨some 1, none⟩, 2, 4, 4⟩]],
+        [⟨some 1, none⟩, ⟨none, none⟩], ⟨1000, 5000, [], .oneD 16⟩⟩ := by decide +kernel
+  have := hst _ _ _ _ _ hw (by unfold EqualTileBounds; decide)
   revert this
   decide +kernel
 
@@ -158,14 +206,14 @@ theorem C05_statement_fails : ¬ C05_statement := by
 /-- the upstream 8x8 tiled pair of `copy_to_dma.mlir` meets every clause of `C05_moves_partial` (and yields a loop
 nest around a 2-D transfer) -/
 example :
-    check (i32 [some 8, some 8] (.tsl ⟨[[⟨some 4, some 2⟩, ⟨some 1, some 4⟩], [⟨some 32, some 2⟩, ⟨some 8, some 4⟩]], some 0⟩))
+    check false (i32 [some 8, some 8] (.tsl ⟨[[⟨some 4, some 2⟩, ⟨some 1, some 4⟩], [⟨some 32, some 2⟩, ⟨some 8, some 4⟩]], some 0⟩))
       (i32 [some 8, some 8] (.tsl ⟨[[⟨some 16, some 2⟩, ⟨some 1, some 4⟩], [⟨some 32, some 2⟩, ⟨some 4, some 4⟩]], some 0⟩))
       ⟨1000, [8, 8], [], 0⟩ ⟨5000, [8, 8], [], 0⟩ true true true = some true := by decide +kernel
 
 /-- a dynamic tiled block layout `[?, 2] -> (?, 2), [?, 2] -> (?, 1)` against the default layout, run-time 4x4,
 meets every clause -/
 example :
-    check (i32 [none, none] (.tsl ⟨[[⟨none, none⟩, ⟨some 2, some 2⟩], [⟨none, none⟩, ⟨some 1, some 2⟩]], some 0⟩))
+    check false (i32 [none, none] (.tsl ⟨[[⟨none, none⟩, ⟨some 2, some 2⟩], [⟨none, none⟩, ⟨some 1, some 2⟩]], some 0⟩))
       (i32 [none, none] .none) ⟨1000, [4, 4], [], 0⟩ ⟨5000, [4, 4], [], 0⟩ true true true = some true := by
   decide +kernel
 
